@@ -230,13 +230,19 @@ def run(ctx):
                 ctx.hit(f"inconclusive:generated engine does not build: {type(ex).__name__}")
                 continue
             history = []
+            n = 0
             for h in range(ctx.scale(3, 4) if rnd.random() < 0.7 else 1):
-                n = rnd.choice([1, 2, 2, 3, 5, 8, maxn])
+                n = n if (n > 1 and rnd.random() < 0.45) else rnd.choice([1, 2, 2, 3, 5, 8, maxn])
                 rows = batch_rows(rnd, spec, n)
                 arr = np.array(rows, dtype=float)
                 way = rnd.choice(["per-variable", "matrix", "matrix"])
                 try:
-                    if way == "per-variable" or n == 1 and rnd.random() < 0.5:
+                    if h > 0 and n > 1 and rnd.random() < 0.4 and all(isinstance(v.value, np.ndarray) and np.shape(v.value) == (n,) and not v.lock_range and v.value.flags.writeable for v in engine.input_variables):
+                        for k, v in enumerate(engine.input_variables):
+                            v.value[:] = arr[:, k]  # the same array objects, refilled in place
+                        way = "in-place refill"
+                        ctx.hit("event:input arrays refilled in place")
+                    elif way == "per-variable" or n == 1 and rnd.random() < 0.5:
                         for k, v in enumerate(engine.input_variables):
                             v.value = arr[:, k] if n > 1 else float(arr[0, k])
                     elif n == 1 and rnd.random() < 0.3:
